@@ -52,6 +52,7 @@ type Opts struct {
 }
 
 type Stack struct {
+	abandoned atomic.Bool
 	Opts   Opts
 	Dir    string
 	Cache  disk.Cache
@@ -348,10 +349,15 @@ func (s *Stack) Close() {
 		disk.VerifStopProxyWorkers(s.Cache)
 	}
 	s.WaitEvictions(5 * time.Second)
-	if s.ownDir {
+	if s.ownDir && !s.abandoned.Load() {
 		RecycleDir(s.Dir)
 	}
 }
+
+// Abandon marks the stack as having requests in flight that the case gave up
+// waiting for: its directory is then not handed to a later case, where the
+// stragglers' files would show up as orphans.
+func (s *Stack) Abandon() { s.abandoned.Store(true) }
 
 // WaitEvictions polls until the deletion backlog is exactly zero.
 func (s *Stack) WaitEvictions(max time.Duration) bool {
